@@ -9,6 +9,7 @@ import (
 	"path/filepath"
 	"reflect"
 	"slices"
+	"sort"
 	"strconv"
 	"sync"
 	"time"
@@ -768,8 +769,14 @@ func (c Cookie) DelCookies(key ...string) {
 
 // VisitAll iterates through all cookies, calling f for each.
 func (c Cookie) VisitAll(f func(key, val string)) {
-	for k, v := range c {
-		f(k, v)
+	// Visit in a fixed order so that the same configuration always builds the same request.
+	keys := make([]string, 0, len(c))
+	for k := range c {
+		keys = append(keys, k)
+	}
+	sort.Strings(keys)
+	for _, k := range keys {
+		f(k, c[k])
 	}
 }
 
@@ -820,8 +827,20 @@ func (p PathParam) DelParams(key ...string) {
 
 // VisitAll iterates through all path parameters, calling f for each.
 func (p PathParam) VisitAll(f func(key, val string)) {
-	for k, v := range p {
-		f(k, v)
+	// Visit in a fixed order, longer names first, so that substituting ":id"
+	// never eats the beginning of ":idx" and the result does not depend on map order.
+	keys := make([]string, 0, len(p))
+	for k := range p {
+		keys = append(keys, k)
+	}
+	sort.Slice(keys, func(i, j int) bool {
+		if len(keys[i]) != len(keys[j]) {
+			return len(keys[i]) > len(keys[j])
+		}
+		return keys[i] < keys[j]
+	})
+	for _, k := range keys {
+		f(k, p[k])
 	}
 }
 
